@@ -234,9 +234,23 @@ def install():
     jstubs.setattr_mod('jesse.helpers', 'math', _RelaxMath(), 'math.floor/isnan pass proxies (floor exact)')
     jstubs.setattr_mod('jesse.utils', 'Decimal', lambda x: x, 'Decimal(str(x)) is the exact value of x (assumption: shortest repr round-trips)')
     jstubs.setattr_mod('jesse.utils', 'str', lambda x: x if sx.is_sym(x) else builtins.str(x))
+    jstubs.setattr_mod('jesse.utils', 'format', _pformat, 'format(x, "[.N]f") of a proxy is x rounded to N (default 6) decimals, "" / "r" the exact value')
+    jstubs.setattr_mod('jesse.utils', 'repr', lambda x: x if sx.is_sym(x) else builtins.repr(x))
     jstubs.setattr_mod('jesse.utils', 'float', jstubs.pfloat)
     jstubs.setattr_mod('jesse.utils', 'abs', builtins.abs)
     jstubs.setattr_mod('jesse.helpers', 'isinstance', _isinstance, 'isinstance(x, int) accepts symbolic ints')
+
+
+def _pformat(x, spec=''):
+    """format() on a proxy, for the decimal-string round trip Decimal(<string of x>): the value the string denotes"""
+    if not sx.is_sym(x):
+        return builtins.format(x, spec)
+    if spec in ('', 'r', 's'):
+        return x
+    m = re.match(r'^(?:\.(\d+))?f$', spec)
+    if m:
+        return sx.sym_round(x, int(m.group(1)) if m.group(1) is not None else 6)
+    raise sx.Concretization('format(%r) of a symbolic value' % spec)
 
 
 def _isinstance(x, t):
